@@ -112,15 +112,14 @@ type roundT struct {
 }
 
 type cfgT struct {
-	Clients                int
-	AS, GS, AQ, GQ         int
-	Bal                    [nAcc]int
-	GasLimit, BaseFee      int
-	Journal, NoLocals      int
-	StopInLast             int
-	QiPool                 int
-	MaxTxWS                int
-	InitialHeadsBeforePool int
+	Clients           int
+	AS, GS, AQ, GQ    int
+	Bal               [nAcc]int
+	GasLimit, BaseFee int
+	Journal, NoLocals int
+	StopInLast        int
+	QiPool            int
+	MaxTxWS           int
 }
 
 var opGen = rapid.Custom(func(t *rapid.T) opT {
@@ -217,16 +216,19 @@ type harness struct {
 	stopped bool
 	dir     string
 
-	oracleN int
-	sample  []string
-	prev    *core.VerifView
+	model         *model // TestC19Seq only
+	oracleN       int
+	sample        []string
+	prev          *core.VerifView
 	resurrectable map[common.Hash]bool
 }
 
 func (h *harness) inc(k string) { h.s.count(k, 1) }
 
 // Fire implements logrus.Hook: the pool's goroutines recover their own panics and only log them.
-func (h *harness) Levels() []logrus.Level { return []logrus.Level{logrus.ErrorLevel, logrus.FatalLevel, logrus.PanicLevel} }
+func (h *harness) Levels() []logrus.Level {
+	return []logrus.Level{logrus.ErrorLevel, logrus.FatalLevel, logrus.PanicLevel}
+}
 func (h *harness) Fire(e *logrus.Entry) error {
 	if strings.Contains(e.Message, "Panicked") {
 		h.logMu.Lock()
@@ -322,7 +324,9 @@ func (h *harness) onAcquire(g *G, l any, write bool) {
 	}
 }
 
-func keyStr(k txKey) string { return fmt.Sprintf("a%d/n%d/p%d/v%d", k.acct, k.nonce, k.price, k.variant) }
+func keyStr(k txKey) string {
+	return fmt.Sprintf("a%d/n%d/p%d/v%d", k.acct, k.nonce, k.price, k.variant)
+}
 
 // add submits the transactions and checks clause (5) of the property on the verdicts.
 func (h *harness) add(c *client, how string, keys []txKey) {
@@ -361,6 +365,20 @@ func (h *harness) add(c *client, how string, keys []txKey) {
 	}
 	h.s.event("op c%d %s %v -> %v", c.id, how, ks, res)
 	c.log = append(c.log, fmt.Sprintf("%s %v -> %v", how, ks, res))
+	if h.model != nil {
+		local := (how == "add-local" || how == "add-locals") && !h.pcfg.NoLocals
+		bf := h.chain.headRec().wo.BaseFee()
+		var xs []*mtx
+		for _, tx := range r.txs {
+			xs = append(xs, mtxOf(tx))
+		}
+		for i, mv := range h.model.addBatch(xs, local, bf) {
+			if mv != res[i] {
+				h.fail("model", "invariant=verdict-mismatch model="+mv+" pool="+res[i]+" via="+how,
+					fmt.Sprintf("%s of %s: the reference model says %q, the pool answered %q (%v)", how, ks[i], mv, res[i], errs[i]))
+			}
+		}
+	}
 	if !r.taken {
 		return // never got the pool lock (shut down)
 	}
@@ -477,8 +495,11 @@ func (h *harness) headOp(c *client, op opT) {
 		parent = b
 	}
 	h.chain.setHead(parent)
-	if op.D%2 == 0 {
+	if op.D%2 == 0 || h.model != nil {
 		evs = evs[len(evs)-1:] // only the final head is announced
+	}
+	if h.model != nil {
+		h.model.runReorg(parent, parent.wo.BaseFee())
 	}
 	h.s.event("op c%d head%s events=%d", c.id, desc, len(evs))
 	c.log = append(c.log, "head"+desc)
@@ -561,6 +582,9 @@ func (h *harness) reorgOp(c *client, op opT) {
 		parent = h.chain.register(parent, st, txs, old.wo.GasLimit(), old.wo.BaseFee().Int64())
 	}
 	h.chain.setHead(parent)
+	if h.model != nil {
+		h.model.runReorg(parent, parent.wo.BaseFee())
+	}
 	h.s.event("op c%d reorg depth=%d newlen=%d oldtxs=%d resurrect=%d", c.id, depth, newLen, len(oldTxs), resurrect)
 	c.log = append(c.log, fmt.Sprintf("reorg depth=%d newlen=%d oldtxs=%d resurrect=%d", depth, newLen, len(oldTxs), resurrect))
 	h.inc("fault.reorg")
@@ -610,6 +634,9 @@ func (h *harness) exec(c *client, op opT) {
 		h.opKind("set-gas-price")
 		p := gasPrices[op.C%5]
 		h.pool.SetGasPrice(big.NewInt(p))
+		if h.model != nil {
+			h.model.setGasPrice(big.NewInt(p))
+		}
 		h.s.event("op c%d set-gas-price %d", c.id, p)
 		c.log = append(c.log, fmt.Sprintf("set-gas-price %d", p))
 		h.inc("fault.price_change")
@@ -635,6 +662,9 @@ func (h *harness) exec(c *client, op opT) {
 		}
 		ok := h.s.fire(t)
 		lbl := tickerLabel(ts, t)
+		if h.model != nil && lbl == "reorg" {
+			h.model.runReorg(nil, nil)
+		}
 		h.s.event("op c%d fire %s delivered=%v", c.id, t.name, ok)
 		c.log = append(c.log, "fire "+lbl)
 		h.inc("fault.tick_" + lbl)
@@ -791,15 +821,19 @@ func (h *harness) settle(after string) bool {
 		h.inc("probe.stall_resolved_by_ticker")
 		return true
 	}
+	// witness: the goroutines that were stuck BEFORE the rescue ticks (the ticks only add bystanders that now queue
+	// up behind the same locks); detail: everything that waits now
 	var ds []string
 	seen := map[string]bool{}
-	detail := ""
-	for _, x := range st2 {
+	for _, x := range st {
 		d := x.desc + "(" + x.kind + ")"
 		if !seen[d] {
 			seen[d] = true
 			ds = append(ds, d)
 		}
+	}
+	detail := ""
+	for _, x := range st2 {
 		detail += fmt.Sprintf("  %s waits at %s (%s)\n", x.name, x.desc, x.kind)
 	}
 	sort.Strings(ds)
@@ -820,7 +854,7 @@ func (h *harness) checkPanics(after string) {
 	}
 }
 
-func runTape(t *testing.T, cfg cfgT, rounds []roundT, tape []byte) (res *harness) {
+func runTape(t *testing.T, cfg cfgT, rounds []roundT, tape []byte, seq bool) (res *harness) {
 	h := &harness{cfg: cfg, tr: simkit.NewTrace(), resurrectable: map[common.Hash]bool{}}
 	res = h
 	wd := watchdog()
@@ -902,6 +936,9 @@ func runTape(t *testing.T, cfg cfgT, rounds []roundT, tape []byte) (res *harness
 		}
 		s.joinDone()
 		h.muAddr = h.pool.VerifMu()
+		if seq {
+			h.model = newModel(h.chain.headRec(), h.pcfg.NoLocals, h.pcfg.PriceBump)
+		}
 		h.oracle("init", 2)
 
 		var clients []*client
@@ -1006,6 +1043,9 @@ func (h *harness) reorgTick() {
 		if strings.Contains(t.name, ":scheduleReorgLoop:") {
 			h.s.fire(t)
 			h.tr.Event("settle-tick")
+			if h.model != nil {
+				h.model.runReorg(nil, nil)
+			}
 		}
 	}
 }
@@ -1050,10 +1090,33 @@ func runProperty(rt *rapid.T, t *testing.T, single bool) {
 		}
 	}
 	if single {
-		cfg.Clients = 1
+		// one client, one operation per round (operations are separated by quiescence), limits that never bind,
+		// no clock advance: the regime in which the reference model is exact
+		cfg.Clients, cfg.AS, cfg.GS, cfg.AQ, cfg.GQ = 1, 64, 64, 64, 64
+		var seqRounds []roundT
+		for _, r := range rounds {
+			var flat []opT
+			for _, l := range r.Ops {
+				flat = append(flat, l...)
+			}
+			for i, op := range flat {
+				if op.Kind == 12 || op.Kind == 14 {
+					op.Kind = 13
+				}
+				st := 0
+				if i == len(flat)-1 {
+					st = r.Settle
+				}
+				seqRounds = append(seqRounds, roundT{Ops: [][]opT{{op}}, Settle: st})
+			}
+		}
+		if len(seqRounds) == 0 {
+			seqRounds = []roundT{{Ops: [][]opT{{}}, Settle: 1}}
+		}
+		rounds = seqRounds
 	}
 	t0 := time.Now()
-	h := runTape(t, cfg, rounds, tape)
+	h := runTape(t, cfg, rounds, tape, single)
 	G := simkit.Global
 	G.Inc("runs")
 	G.Add("wall_us", time.Since(t0).Microseconds())
@@ -1095,6 +1158,11 @@ func runProperty(rt *rapid.T, t *testing.T, single bool) {
 			panic(simkit.KnownReached{})
 		}
 	}
+}
+
+// TestC19Seq: single client against the sequential reference model (see model_test.go).
+func TestC19Seq(t *testing.T) {
+	rapid.Check(t, func(rt *rapid.T) { runProperty(rt, t, true) })
 }
 
 func TestC19(t *testing.T) {
